@@ -8,7 +8,7 @@
 //              cursor and end() are compared.  read() gets a destination block of exactly `size`
 //              bytes; for the two huge sizes no such block can exist, so the destination is nullptr
 //              (which read() documents as "just skip").
-// fixedwriter: FixedBufferWriter of capacity C = 0..6, every history of length <= D over write(n) /
+// fixedwriter: FixedBufferWriter of capacity C = 0..6, every history of length <= D over write(n) / (n also SIZE_MAX, SIZE_MAX-1)
 //              reserve(n), n in {0,1,2,3}.  Model: accepted iff cursor + n <= C; a rejected call throws
 //              and leaves buffer, cursor, available() unchanged.  After every step available(),
 //              capacity(), cursor, getWrittenView() (size and bytes) and the whole buffer image are
@@ -144,9 +144,14 @@ static int run_reader(int N, const std::vector<int> &h, const std::string &repla
 // ------------------------------------------------------------------------------------------------
 // fixedwriter
 // ------------------------------------------------------------------------------------------------
+// ops 0..3 write(n), 4..7 reserve(n), 8/9 write/reserve(SIZE_MAX), 10/11 write/reserve(SIZE_MAX-1): with a
+// non-zero cursor, cursor + size wraps around to a small number for the last four
+static bool writer_is_reserve(int op) { return op < 8 ? op >= 4 : (op & 1) != 0; }
+static size_t writer_size(int op) { return op < 8 ? (size_t)(op % 4) : op < 10 ? SMAX : SMAX - 1; }
+static std::string writer_szname(int op) { return op < 8 ? std::to_string(op % 4) : op < 10 ? "SIZE_MAX" : "SIZE_MAX-1"; }
 static std::string writer_opname(int op)
 {
-  return std::string(op < 4 ? "write(" : "reserve(") + std::to_string(op % 4) + ")";
+  return std::string(writer_is_reserve(op) ? "reserve(" : "write(") + writer_szname(op) + ")";
 }
 
 static int run_writer(int C, const std::vector<int> &h, const std::string &replay, bool verbose)
@@ -194,18 +199,18 @@ static int run_writer(int C, const std::vector<int> &h, const std::string &repla
   }
   for (size_t step = 0; step < h.size(); step++) {
     const int op = h[step];
-    const bool is_reserve = op >= 4;
-    const size_t n = (size_t)(op % 4);
-    const bool fits = cur + n <= (size_t)C;
+    const bool is_reserve = writer_is_reserve(op);
+    const size_t n = writer_size(op);
+    const bool fits = n <= (size_t)C - cur;
     const size_t cur_before = cur;
     const bool last = step + 1 == h.size();
     const std::string fn = is_reserve ? "FixedBufferWriter::reserve" : "FixedBufferWriter::write";
-    const char *cls = cur + n == (size_t)C ? "exact fit (cursor+size == capacity)" : fits ? "cursor+size < capacity" : "cursor+size > capacity";
+    const char *cls = n >= SMAX - 1 ? "size near SIZE_MAX (cursor+size wraps)" : cur + n == (size_t)C ? "exact fit (cursor+size == capacity)" : fits ? "cursor+size < capacity" : "cursor+size > capacity";
     sq::stat("transitions");
     // snapshot of the real buffer to see whether a rejected call wrote anything
     std::vector<uint8_t> before(w.buffer->begin(), w.buffer->begin() + C);
     uint8_t src[4];
-    for (size_t i = 0; i < n; i++)
+    for (size_t i = 0; i < n && i < 4; i++)
       src[i] = (uint8_t)(next++ * 29u + 3u) & 0x7f;
     bool threw = false;
     void *mem = nullptr;
@@ -213,7 +218,7 @@ static int run_writer(int C, const std::vector<int> &h, const std::string &repla
       if (is_reserve)
         mem = w.reserve(n);
       else
-        w.write(src, n);
+        w.write(n > 4 ? nullptr : src, n);  // no source block of a huge size can exist; accepting it is already the violation
     } catch (const std::exception &) {
       threw = true;
     }
@@ -524,7 +529,7 @@ int main(int argc, char **argv)
     int n = atoi(r.substr(sl + 2, c - sl - 2).c_str());
     std::vector<int> h = sq::parse_ops(r.substr(c + 1));
     for (int x : h)
-      if (x < 0 || x >= (p == "reader" ? 14 : 8)) {
+      if (x < 0 || x >= (p == "reader" ? 14 : 12)) {
         printf("bad op index %d\n", x);
         return 2;
       }
@@ -545,7 +550,7 @@ int main(int argc, char **argv)
   }
   const bool reader = part == "reader";
   const int depth = reader ? (vr::thorough() ? 5 : 4) : (vr::thorough() ? 6 : 4);
-  const int A = reader ? 14 : 8;
+  const int A = reader ? 14 : 12;
   for (int n = 0; n <= 6; n++) {
     const std::string tag = (reader ? "reader/N" : "fixedwriter/C") + std::to_string(n);
     if (reader)
@@ -555,7 +560,7 @@ int main(int argc, char **argv)
     else
       sq::explore_tree(
           tag, A, depth, 16, [n](const std::vector<int> &h, const std::string &rp) { return run_writer(n, h, rp, false); },
-          [](const std::vector<int> &h) { return h.empty() ? std::string("FixedBufferWriter|crash in setup") : (h.back() < 4 ? "FixedBufferWriter::write" : "FixedBufferWriter::reserve") + std::string("|crash|size ") + std::to_string(h.back() % 4); });
+          [](const std::vector<int> &h) { return h.empty() ? std::string("FixedBufferWriter|crash in setup") : (writer_is_reserve(h.back()) ? "FixedBufferWriter::reserve" : "FixedBufferWriter::write") + std::string("|crash|size ") + writer_szname(h.back()); });
   }
   sq::remove_scratch();
   vr::note(part + ": alphabet " + std::to_string(A) + ", depth " + std::to_string(depth) + ", buffer sizes 0..6; a history is not extended after a violation");
